@@ -5,7 +5,7 @@
   backoff, errors mode, retries), every iteration record (any duration: `ended - start` shorter, equal or
   longer than the interval; any patch round trip `patched - ended ≥ 0`), every result script and every
   timing of object changes (`view : Int → Int` is an arbitrary function: what the loop reads of
-  `memory.idle_reset_time` at each instant; in the idle section it is derived from an arbitrary event
+  `memory.idle_reset_time` at each instant; in `idle_law_full` it is derived from an arbitrary event
   history). `Sched cfg view spawn its` = `its` is a prefix of the iteration sequence of one timer task;
   `stateAt cfg its n` = the in-memory handler state with which iteration `n` is entered. Whether an
   iteration invokes the function is determined by that state (`Iter.ok`), not assumed.
@@ -274,48 +274,22 @@ theorem idle_law (cfg : Cfg) (view : View) (spawn idle : Int) (its : List Iter)
   · exact Gate.idle_ok hi hf
   · exact Next.idle_ok hi hnext
 
-/-- With `idle_reset_time` derived from the history of processed events: no iteration starts within the
-    idle time after any change the operator REGISTERED (an event whose essence differs from the
-    last-handled essence it carries) and processed by then — for every event history. -/
-theorem idle_law_registered (cfg : Cfg) (created spawn idle : Int) (evs : List Ev) (its : List Iter)
-    (hi : cfg.idle = some idle) (h : Sched cfg (viewOf created evs) spawn its) :
-    ∀ it ∈ its, ∀ e ∈ evs, e.registered = true → e.t ≤ it.start → idle ≤ it.start - e.t := by
-  intro it hit e he hr ht
-  have := idle_law cfg (viewOf created evs) spawn idle its hi h it hit
-  have := viewOf_ge_registered created evs it.start e he hr ht
-  omega
-
-/-- FULL CLAUSE (`FullIdle`): no run starts within the idle time after the last ESSENTIAL change of the
-    object (its essence differs from the previously processed version). It is false of the code in
-    general (`idle_full_clause_false_witness`). PROVED under the exact guard `AllEssentialRegistered`:
-    every essential change is also a change against the last-handled essence — e.g. no change handlers
-    at all (nothing is ever stored as handled), or every change is handled before the next one arrives. -/
-theorem idle_law_partial (cfg : Cfg) (created spawn idle : Int) (evs : List Ev) (its : List Iter)
-    (hi : cfg.idle = some idle) (hg : AllEssentialRegistered evs) (h : Sched cfg (viewOf created evs) spawn its) :
-    FullIdle idle evs its := by
+/-- The property's idle clause in FULL (`FullIdle`): with `idle_reset_time` derived from the history of
+    processed events — for EVERY event history — no run starts within the idle time after ANY essential
+    change of the object (its essence differs from the previously processed version; the first sight
+    counts), whatever the object carries as last handled (so also for A → B → A with B never handled:
+    since the repair 201494d an event resets idling when it differs from the last-handled OR from the
+    last-seen essence). Residual guard `CreatedByFirstEvent`: the per-object memory is created by the
+    first processed event, which is how `memories.recall` works. Scope: `evs` is the history of ONE
+    memory, i.e. one operator process; changes made while no operator runs are not events — after a
+    restart the first sight of the object is the first event of the new memory and counts as a change. -/
+theorem idle_law_full (cfg : Cfg) (created spawn idle : Int) (evs : List Ev) (its : List Iter)
+    (hi : cfg.idle = some idle) (hcr : CreatedByFirstEvent created evs)
+    (h : Sched cfg (viewOf created evs) spawn its) : FullIdle idle evs its := by
   intro it hit _ c hc hle
-  obtain ⟨e, he, het, hr⟩ := hg c hc
-  have := idle_law_registered cfg created spawn idle evs its hi h it hit e he hr (by omega)
+  have := idle_law cfg (viewOf created evs) spawn idle its hi h it hit
+  have := viewOf_ge_essential created evs it.start c hcr hc hle
   omega
-
-/-- The negation of the full clause, as a concrete behaviour of the model (replayed on the real operator
-    in every run: corpus/C10/F1.json, open finding C10-F1). Timer: interval 1 s, idle 4 s. The object is
-    created at t=64 (essence 0), recorded as handled (t=66), edited to essence 1 at t=512 — registered,
-    but never recorded as handled (the update handler keeps failing) — and edited BACK to essence 0 at
-    t=864: the essence changed (1 → 0), yet it equals the last-handled essence, so `idle_reset_time`
-    stays 512. The runs at 768, 832 are legitimate; the run at 896 starts 32 ticks (0.5 s) after the
-    essential change at 864, although idle = 256 ticks. -/
-theorem idle_full_clause_false_witness :
-    ∃ (cfg : Cfg) (idle created spawn : Int) (evs : List Ev) (its : List Iter),
-      cfg.idle = some idle ∧ Sched cfg (viewOf created evs) spawn its ∧ ¬ FullIdle idle evs its := by
-  let cfg : Cfg := { interval := some 64, sharp := false, idle := some 256, initialDelay := none, backoff := 64 }
-  let evs : List Ev := [⟨64, 0, none⟩, ⟨66, 0, some 0⟩, ⟨512, 1, some 0⟩, ⟨864, 0, some 0⟩]
-  let mk : Int → Iter := fun t => { start := t, ended := t, patched := t, res := some .ok }
-  let its : List Iter := [mk 320, mk 384, mk 448, mk 768, mk 832, mk 896]
-  refine ⟨cfg, 256, 64, 64, evs, its, rfl, schedCheck_sound (extends_total _) (n := 8) (by decide), ?_⟩
-  intro hfull
-  have := hfull (mk 896) (by simp [its]) rfl 864 (by decide) (by decide)
-  simp [mk] at this
 
 /-- Idle-only timers (no interval): after an iteration that left the state finished, the next one needs
     a change newer than the iteration's start (read at one of the poll instants `patched, patched + idle, …`),
@@ -390,17 +364,24 @@ example : nextStartN { cfgI with idle := none } pv0 8 (step cfgI .fresh { f1 wit
 private def iI : Iter := { start := 200, ended := 200, patched := 200, res := some .ok }
 example : Next cfgI view0 (step cfgI .fresh iI) iI 596 := nextStartN_sound (extends_total _) (n := 8) (by decide)
 
--- the guard of `idle_law_partial` is met by histories in which every change is handled before the next
-example : AllEssentialRegistered [⟨64, 0, none⟩, ⟨66, 0, some 0⟩, ⟨512, 1, some 0⟩, ⟨514, 1, some 1⟩, ⟨864, 0, some 1⟩] := by
-  intro c hc
-  simp [essentialTimes] at hc
-  rcases hc with rfl | rfl | rfl
-  · exact ⟨⟨64, 0, none⟩, by simp, rfl, by decide⟩
-  · exact ⟨⟨512, 1, some 0⟩, by simp, rfl, by decide⟩
-  · exact ⟨⟨864, 0, some 1⟩, by simp, rfl, by decide⟩
--- … and the derived view of the witness history: 64 until the edit of 512 is processed, 512 ever after
-example : viewOf 64 [⟨64, 0, none⟩, ⟨66, 0, some 0⟩, ⟨512, 1, some 0⟩, ⟨864, 0, some 0⟩] 511 = 64 ∧
-          viewOf 64 [⟨64, 0, none⟩, ⟨66, 0, some 0⟩, ⟨512, 1, some 0⟩, ⟨864, 0, some 0⟩] 896 = 512 := by decide
+-- regression of the former finding C10-F1 (corpus/C10/F1.json): created at 64 (essence 0), recorded as handled
+-- (66), edited to essence 1 at 512 and never recorded as handled, edited BACK to essence 0 at 864. The old
+-- code kept `idle_reset_time` at 512 and ran at 896; now the flip-back is a reset: the view becomes 864 …
+private def evsF : List Ev := [⟨64, 0, none⟩, ⟨66, 0, some 0⟩, ⟨512, 1, some 0⟩, ⟨864, 0, some 0⟩]
+private def cfgF : Cfg := { interval := some 64, sharp := false, idle := some 256, initialDelay := none, backoff := 64 }
+private def mkF (t : Int) : Iter := { start := t, ended := t, patched := t, res := some .ok }
+example : viewOf 64 evsF 511 = 64 ∧ viewOf 64 evsF 863 = 512 ∧ viewOf 64 evsF 896 = 864 := by decide
+example : essentialTimes none evsF = [64, 512, 864] := by decide
+example : CreatedByFirstEvent 64 evsF := by intro e he; simp [evsF] at he; subst he; decide
+-- … the run at 896 (32 ticks after the change) is no behaviour of the model any more, the next run is at 864 + 256
+example : schedCheck cfgF (fun t => some (viewOf 64 evsF t)) 8 64 [mkF 320, mkF 384, mkF 448, mkF 768, mkF 832, mkF 896] = false := by
+  decide
+example : Sched cfgF (viewOf 64 evsF) 64 [mkF 320, mkF 384, mkF 448, mkF 768, mkF 832, mkF 1120] :=
+  schedCheck_sound (extends_total _) (n := 8) (by decide)
+-- … and that schedule meets the full clause (an instance of `idle_law_full`)
+example : FullIdle 256 evsF [mkF 320, mkF 384, mkF 448, mkF 768, mkF 832, mkF 1120] :=
+  idle_law_full cfgF 64 64 256 evsF _ rfl (by intro e he; simp [evsF] at he; subst he; decide)
+    (schedCheck_sound (extends_total _) (n := 8) (by decide))
 
 end Examples
 
